@@ -212,7 +212,7 @@ def gauss_approx_tranche_loss(k1, k2, mu, sigma):
             tranche_loss += (mu - k1)
 
         if mu > k2:
-            tranche_loss += (mu - k2)
+            tranche_loss -= (mu - k2)
     else:
 
         d1 = (mu - k1) / sigma
